@@ -461,7 +461,9 @@ func (self *Compiler) compileExpr(node ast.AnalyzedExpression) {
 		exceptionLabel := self.mangleLabel("exception_label")
 		afterCatchLabel := self.mangleLabel("after_catch_label")
 		self.insert(newTwoStringInstruction(Opcode_SetTryLabel, mangledCurr, exceptionLabel), node.Range)
+		self.tryDepth++
 		self.compileBlock(node.TryBlock, true)
+		self.tryDepth--
 		self.insert(newPrimitiveInstruction(Opcode_PopTryLabel), node.Range)
 		self.insert(newOneStringInstruction(Opcode_Jump, afterCatchLabel), node.Range)
 
